@@ -15,6 +15,7 @@ DEVIATIONS = {
     "RateNonMonotone": ("C25_Monotone", "monitor"), "NoTruncOnQuery": ("C25_FunctionOfWindow", "monitor"),
     "NoCap": ("C25_FunctionOfWindow", "monitor"),
     "ProduceNotChecked": ("C25_Gate", "gate"), "FetchNotChecked": ("C25_Gate", "gate"), "DegradedPasses": ("C25_Gate", "gate"),
+    "GateHoisted": ("C25_Gate", "gate"),
 }
 DEV_WIN, DEV_MAXN = 2, 2      # constants of the Dev_*.cfg files
 SIM_WIN, SIM_MAXN = 3, 3      # constants of the Sim_*.cfg files
@@ -32,11 +33,13 @@ TRACE_CFG = """CONSTANTS
  DevNoCap = FALSE
  DevHealthNotChecked <- None
  DevDegradedPasses = FALSE
+ DevGateHoisted = FALSE
 INIT TInit
 NEXT TNext
 POSTCONDITION Reached
 CHECK_DEADLOCK FALSE
 """
+ALL_PERMS = {"allow": [["*", "*"]], "deny": [], "dflt": False}
 HANDLER_HARNESS = lambda: os.path.join(DIR, "..", "Handler", "harness", "handler_verif_test.go")
 
 
@@ -65,7 +68,10 @@ def gate_harness(ctx, scheds, tag):
             if st["a"] == "Record":
                 steps.append({"a": "S3Sample", "lat": st["lat"], "err": st["err"]})
             elif st["a"] == "Probe":
-                steps.append({"a": "Req", "api": "Produce" if st["kind"] == "produce" else "Fetch", "tg": [["tk", 0]], "perms": [["*", "*"]], "probe": st["kind"]})
+                steps.append({"a": "Req", "api": "Produce" if st["kind"] == "produce" else "Fetch", "tg": [["tk", 0]], "perms": ALL_PERMS, "probe": st["kind"]})
+            elif st["a"] == "Produce2":
+                # one produce for tk/0 and tk/1; the bucket refuses the uploads of tk/0
+                steps.append({"a": "Req", "api": "Produce", "tg": [["tk", 0], ["tk", 1]], "perms": ALL_PERMS, "probe": "produce2", "s3fail": [["tk", 0]]})
             elif st["a"] == "Query":
                 steps.append({"a": "S3Query"})
             else:
@@ -87,6 +93,9 @@ def gate_harness(ctx, scheds, tag):
             rows.append({"ev": "Record", "lat": r["lat"], "err": r["err"], "now": 0, "stored": r["stored"], "sstate": r["health"]})
         elif r["ev"] == "S3Query":
             rows.append({"ev": "Query", "now": 0, "st": r["health"], "stored": r["stored"], "sstate": r["health"]})
+        elif r["ev"] == "Req" and r["probe"] == "produce2":
+            rows.append({"ev": "Produce2", "nerr": r["nfail"], "st": r["items"][1]["healthAt"],
+                         "items": [{"st": it["healthAt"], "acked": it["code"] == 0, "data": False, "code": it["code"], "uploaded": it["uploaded"]} for it in r["items"]]})
         elif r["ev"] == "Req":
             it = r["items"][0]
             rows.append({"ev": "Probe", "kind": r["probe"], "st": r["health"], "acked": r["api"] == "Produce" and it["code"] == 0,
@@ -162,10 +171,12 @@ def check(ctx, prop):
         raise Broken("harness recorded %d runs for %d schedules" % (len(runs), len(scheds)))
     nprobe = sum(1 for r in rows if r["ev"] == "Probe")
     nrej = sum(1 for r in rows if r["ev"] == "Probe" and r["st"] != "healthy")
-    nquery = sum(1 for r in rows if r["ev"] in ("Query", "Probe"))
+    nquery = sum(1 for r in rows if r["ev"] in ("Query", "Probe", "Produce2"))
     ratings = {r["st"] for r in rows if r["ev"] in ("Query", "Probe")}
-    if nprobe == 0 or nrej == 0 or nrej == nprobe or ratings != {"healthy", "degraded", "unavailable"}:
-        raise Broken("vacuous run: probes=%d rejected=%d ratings=%s" % (nprobe, nrej, sorted(ratings)))
+    p2 = [r for r in rows if r["ev"] == "Produce2"]
+    nflip = sum(1 for r in p2 if r["items"][0]["st"] == "healthy" and r["items"][1]["st"] != "healthy")   # rating turned bad between the two partitions
+    if nprobe == 0 or nrej == 0 or nrej == nprobe or ratings != {"healthy", "degraded", "unavailable"} or nflip == 0:
+        raise Broken("vacuous run: probes=%d rejected=%d ratings=%s two-partition produces=%d with a mid-request flip=%d" % (nprobe, nrej, sorted(ratings), len(p2), nflip))
     consumed, _, ores = layers.observe(ctx, DIR, "Obs_S3Health.tla", "Obs_S3Health.cfg", rows, timeout=3000)
     sched_of_line = lambda line: sum(1 for r in rows[:line] if r["ev"] == "Reset") - 1
     where_of = lambda i: "gate" if scheds[i]["win"] == HUGE_WIN else "monitor"
@@ -173,7 +184,7 @@ def check(ctx, prop):
     for line, inv, partner in sorted(tuple(v) for v in ores.prints["OBS"][-1]["viol"]):
         ev = rows[line - 1]
         idx = sched_of_line(line)
-        sig = "%s@%s" % (inv, where_of(idx) if inv != "C25_Gate" else "Probe." + ev["kind"])
+        sig = "%s@%s" % (inv, where_of(idx) if inv != "C25_Gate" else ("Probe." + ev["kind"] if ev["ev"] == "Probe" else "Produce2"))
         if sig in first:
             continue
         first.add(sig)
@@ -205,6 +216,7 @@ def check(ctx, prop):
         "model_config": "MC_S3Health_%s.cfg" % ctx.tier,
         "traces_validated_against_impl": len(runs), "trace_events": len(rows),
         "evaluations": nquery, "gate_probes": nprobe, "gate_probes_while_unhealthy": nrej,
+        "two_partition_produces": len(p2), "two_partition_produces_rating_flipped_mid_request": nflip,
         "distinct_nontrivial": nontrivial,
         "rule": "schedules = TLC counterexamples of the named deviations + TLC -simulate behaviours (seeded) of the monitor model (with ticks) and of the gate model (Record/Probe); evaluations = ratings returned by the real monitor and checked; non-trivial = distinct schedules in which the real code returned at least two different ratings",
         "deviation_schedules": sorted(DEVIATIONS), "conformance": ("drift" if drift else "accepted"), "conformance_detail": conf,
@@ -213,7 +225,7 @@ def check(ctx, prop):
     }
     if not quick:
         cov["action_coverage"] = {k: v[1] for k, v in mc.action_coverage().items()}
-        dead = [k for k in ("Record", "Tick", "Query", "Probe") if cov["action_coverage"].get(k, 0) == 0]
+        dead = [k for k in ("Record", "Tick", "Query", "Probe", "Produce2") if cov["action_coverage"].get(k, 0) == 0]
         if dead:
             raise Broken("vacuous model run: actions never taken: %s" % dead)
     return verdict(ctx, violations, level, cov, [
